@@ -142,6 +142,23 @@ func runC02(ctx *core.Ctx, idx int) *core.Result {
 		kindCensus(ctx, idx, res, g)
 		return res
 	}
+	if idx%35 == 1 {
+		// list patterns whose sections share metavariables, on lists with dead-end candidates: what a failed attempt
+		// bound must not decide what the next attempt may bind
+		c := g.SharedSectionsChange()
+		var srcs, extra []string
+		for f := 0; f < 4; f++ {
+			plants, _ := g.InstancePlants(c, 1+r.Intn(3), r.Intn(2))
+			srcs = append(srcs, g.File(gen.FileOpts{Plants: plants}))
+			extra = append(extra, "shared-sections")
+		}
+		semBatch(ctx, idx, res, c, srcs, extra, idx%70 == 1, "C02")
+		return res
+	}
+	if idx%35 == 6 {
+		importBindingCase(ctx, idx, res, g)
+		return res
+	}
 	switch stream {
 	case 0, 1:
 		c := c02Change(idx / 5)
@@ -290,6 +307,62 @@ func dotsIn(text string) [][2]string {
 			out = append(out, [2]string{parts[0], parts[1]})
 		}
 		rest = rest[i+j+len("›"):]
+	}
+}
+
+// importBindingCase: an identifier metavariable that names an import of the patch is bound by the file's import; in the
+// code of the patch it stands for that name only (all occurrences stand for identical code). Reference-free: the file
+// has the same call shape under the imported name and under other qualifiers.
+func importBindingCase(ctx *core.Ctx, idx int, res *core.Result, g *gen.G) {
+	r := g.R
+	name := []string{"oldlog", "log", "", "lg"}[r.Intn(4)] // "" = unnamed import, the package is 'log'
+	patch := "@@\nvar log identifier\nvar x expression\n@@\n import log \"example.com/legacy/log\"\n\n-log.Warn(x)\n+log.Warning(x)\n"
+	if r.Intn(2) == 0 {
+		patch = "@@\nvar log identifier\nvar x expression\n@@\n-import log \"example.com/legacy/log\"\n+import log \"example.com/new/log\"\n\n-log.Warn(x)\n+log.Warning(x)\n"
+	}
+	spec := "\"example.com/legacy/log\""
+	qual := "log"
+	if name != "" {
+		spec, qual = name+" "+spec, name
+	}
+	others := []string{"zap", "other", "s.logger", "pkg2"}
+	var body strings.Builder
+	want := 0
+	for i := 0; i < 3+r.Intn(5); i++ {
+		a := g.Atom()
+		if r.Intn(2) == 0 {
+			fmt.Fprintf(&body, "\t%s.Warn(%s)\n", qual, a)
+			want++
+		} else {
+			fmt.Fprintf(&body, "\t%s.Warn(%s)\n", others[r.Intn(len(others))], a)
+		}
+	}
+	src := "package p\n\nimport (\n\t" + spec + "\n\tzap \"example.com/zap\"\n)\n\nfunc f() {\n" + body.String() + "}\n"
+	runs := applyAPI(patch, []string{src})
+	res.Evals++
+	run := runs[0]
+	rep := replayFiles(patch, src, run.Out)
+	if run.Pan != "" {
+		res.Violate("C02/engine-panic:"+core.PanicSignature(run.Pan), run.Pan, rep)
+		return
+	}
+	if run.Err != "" {
+		res.Violate("C02/engine-error", "import-bound metavariable: "+run.Err, rep)
+		return
+	}
+	got := strings.Count(run.Out, ".Warning(")
+	for _, o := range others {
+		if strings.Contains(run.Out, o+".Warning(") {
+			res.Violate("C02/false-positive", fmt.Sprintf("the metavariable that names the import (bound to %q by the file) also stood for %q in the code", qual, o), rep)
+			return
+		}
+	}
+	if got != want {
+		res.Violate("C02/missed-instance", fmt.Sprintf("%d of %d calls through the imported name %q were rewritten", got, want, qual), rep)
+		return
+	}
+	if want > 0 {
+		res.Sig("import-bound-metavariable", name, want, strings.Contains(patch, "+import"))
 	}
 }
 
